@@ -22,12 +22,15 @@ namespace PyPhysim.C06M
 open PyPhysim.Proto
 
 /-- simulation parameters as far as `combine_simulation_parameters` looks at
-    them: scalar fixed parameters and integer arrays marked to be unpacked.
+    them: scalar fixed parameters and numeric arrays marked to be unpacked.  An
+    unpacked value is the *exact rational value* of the Python number (int or
+    binary64), so two values are equal here iff Python's `==` says so (`2 == 2.0`,
+    neighbouring doubles differ) and the order is numpy's sort order.
     Line-protocol invariant: both lists are sorted by (unique) name, which is
     how the code itself enumerates unpacked parameters. -/
 structure Params where
   fixed : List (String × Int)
-  unp : List (String × List Int)
+  unp : List (String × List Rat)
   deriving DecidableEq, Repr, Inhabited
 
 abbrev Dict := List (String × Nat)
@@ -220,12 +223,12 @@ def mergeAllOld (m : Mach) (s o : Nat) : Mach × Option PyErr :=
 /-! ### parameter grids and `combine_simulation_results` -/
 
 /-- insert into a strictly increasing list, keeping it strictly increasing -/
-def insertUniq (x : Int) : List Int → List Int
+def insertUniq (x : Rat) : List Rat → List Rat
   | [] => [x]
   | y :: ys => if x < y then x :: y :: ys else if x = y then y :: ys else y :: insertUniq x ys
 
-/-- `np.union1d` on integer arrays: sorted, duplicates removed -/
-def union1d (a b : List Int) : List Int := (a ++ b).foldr insertUniq []
+/-- `np.union1d` on numeric arrays: sorted, duplicates (exactly equal values only) removed -/
+def union1d (a b : List Rat) : List Rat := (a ++ b).foldr insertUniq []
 
 /-- `combine_simulation_parameters` -/
 def combineParams (p1 p2 : Params) : Except PyErr Params :=
@@ -237,22 +240,22 @@ def combineParams (p1 p2 : Params) : Except PyErr Params :=
 
 /-- all combinations in the order of `get_unpacked_params_list`
     (`itertools.product`: the first parameter varies slowest) -/
-def product : List (List Int) → List (List Int)
+def product : List (List Rat) → List (List Rat)
   | [] => [[]]
   | vs :: rest => vs.flatMap (fun v => (product rest).map (v :: ·))
 
 /-- `list(values).index(x)`: first match -/
-def indexOf? (x : Int) : List Int → Option Nat
+def indexOf? (x : Rat) : List Rat → Option Nat
   | [] => none
   | y :: ys => if y = x then some 0 else (indexOf? x ys).map (· + 1)
 
-def dimsProd : List (List Int) → Nat
+def dimsProd : List (List Rat) → Nat
   | [] => 1
   | vs :: rest => vs.length * dimsProd rest
 
 /-- `get_pack_indexes(combination)[0]`: row-major position of a full
     combination of unpacked values; `ValueError` when a value is absent -/
-def packIndex : List (List Int) → List Int → Except PyErr Nat
+def packIndex : List (List Rat) → List Rat → Except PyErr Nat
   | [], _ => .ok 0
   | _ :: _, [] => .error .KeyError
   | vs :: rest, c :: cs =>
@@ -263,7 +266,7 @@ def packIndex : List (List Int) → List Int → Except PyErr Nat
       | .ok j => .ok (i * dimsProd rest + j)
 
 /-- the two `try: … merge … except ValueError: pass` blocks for one operand -/
-def mergeIfPresent (m : Mach) (f : Res) (l : List Nat) (vals : List (List Int)) (combo : List Int) :
+def mergeIfPresent (m : Mach) (f : Res) (l : List Nat) (vals : List (List Rat)) (combo : List Rat) :
     Except PyErr Res :=
   match packIndex vals combo with
   | .error .ValueError => .ok f
@@ -282,15 +285,15 @@ def mergeIfPresent (m : Mach) (f : Res) (l : List Nat) (vals : List (List Int)) 
 
 /-- the new Result object of one parameter combination: an empty object, merged with the
     first operand's result of that combination if it has one, then with the second's -/
-def cellOf (m : Mach) (f : Res) (l1 l2 : List Nat) (v1 v2 : List (List Int)) (combo : List Int) :
+def cellOf (m : Mach) (f : Res) (l1 l2 : List Nat) (v1 v2 : List (List Rat)) (combo : List Rat) :
     Except PyErr Res :=
   match mergeIfPresent m f l1 v1 combo with
   | .error e => .error e
   | .ok r1 => mergeIfPresent m r1 l2 v2 combo
 
 /-- the Result objects created for one result name, one per combination -/
-def combineName (m : Mach) (f : Res) (l1 l2 : List Nat) (v1 v2 : List (List Int)) :
-    List (List Int) → Except PyErr (List Res)
+def combineName (m : Mach) (f : Res) (l1 l2 : List Nat) (v1 v2 : List (List Rat)) :
+    List (List Rat) → Except PyErr (List Res)
   | [] => .ok []
   | combo :: rest =>
     match mergeIfPresent m f l1 v1 combo with
@@ -302,7 +305,7 @@ def combineName (m : Mach) (f : Res) (l1 l2 : List Nat) (v1 v2 : List (List Int)
         | .ok rs => .ok (r2 :: rs)
 
 /-- value level of `combine_simulation_results`: per name, the list of new results -/
-def combineRows (m : Mach) (d1 d2 : Dict) (v1 v2 : List (List Int)) (combos : List (List Int)) :
+def combineRows (m : Mach) (d1 d2 : Dict) (v1 v2 : List (List Rat)) (combos : List (List Rat)) :
     List String → Except PyErr (List (String × List Res))
   | [] => .ok []
   | nm :: rest =>
